@@ -4,7 +4,7 @@
 //! valid argument, then (C04) the text is valid for the same type and (C05)
 //! it is exactly the RFC 5.3 recomposition of the expected components with the
 //! three documented disambiguations.
-use crate::oracle::{comps_of, recompose_with, split_ref, Comps};
+use crate::oracle::{comps_of, concat_eq, recompose_pieces, split_ref, Comps};
 use crate::sym::{any_bool, as_str, assume, bytes_eq, vec_of, Text};
 use crate::{cover, tables};
 use iref_core::{iri, uri, IriBuf, IriRefBuf, UriBuf, UriRefBuf};
@@ -19,8 +19,9 @@ pub enum Which {
     Fragment,
 }
 
-/// Expected text after replacing component `w` of `b` by `new` (None = removed).
-fn expected<'a>(b: &'a [u8], w: Which, new: Option<&'a [u8]>, slash_empty: bool) -> crate::oracle::Out {
+/// `out` is the recomposition of `b` with component `w` replaced by `new`
+/// (None = removed).
+fn is_expected(out: &[u8], b: &[u8], w: Which, new: Option<&[u8]>, slash_empty: bool) -> bool {
     let s = split_ref(b);
     let mut c = comps_of(b, &s);
     match w {
@@ -30,32 +31,31 @@ fn expected<'a>(b: &'a [u8], w: Which, new: Option<&'a [u8]>, slash_empty: bool)
         Which::Query => c.query = new,
         Which::Fragment => c.fragment = new,
     }
-    recompose_with(&c, slash_empty)
+    concat_eq(out, &recompose_pieces(&c, slash_empty))
 }
 
 macro_rules! setter_body {
-    ($fname:ident, $Buf:ty, $table:ident, $mkbuf:expr, $which:expr, $argvalid:expr, $call:expr, $optional:expr) => {
+    ($fname:ident, $Buf:ty, $tablek:ident, $mkbuf:expr, $which:expr, $argvalid:expr, $call:expr, $optional:expr) => {
         fn $fname<const N: usize, const M: usize>() {
             let t = Text::<N>::any();
             let b = t.bytes();
-            assume(tables::$table(b));
+            assume(tables::$tablek(b, N));
             let a = Text::<M>::any();
             let arg = a.bytes();
             let some = if $optional { any_bool() } else { true };
             if some {
                 assume($argvalid(arg));
             }
-            let want = expected(b, $which, if some { Some(arg) } else { None }, true);
-            // an empty path after an authority may stay empty or become "/"
-            let want2 = expected(b, $which, if some { Some(arg) } else { None }, false);
             let mut x: $Buf = $mkbuf(b);
             $call(&mut x, if some { Some(arg) } else { None });
             let out = x.as_bytes();
-            assert!(tables::$table(out), "C04: the buffer is no longer a valid value of its type after the setter");
+            // (an empty path after an authority may stay empty or become "/")
+            let new = if some { Some(arg) } else { None };
             assert!(
-                bytes_eq(out, want.bytes()) || bytes_eq(out, want2.bytes()),
+                is_expected(out, b, $which, new, true) || is_expected(out, b, $which, new, false),
                 "C05: result differs from the recomposition of the expected components"
             );
+            assert!(tables::$tablek(out, N + M + 3), "C04: the buffer is no longer a valid value of its type after the setter");
             cover!(some && out.len() > b.len(), "the text grew");
             cover!(out.len() < b.len(), "the text shrank");
             cover!(out.len() == N + M + 1, "grew by the whole argument plus a delimiter");
@@ -81,7 +81,7 @@ fn v_scheme(a: &[u8]) -> bool {
     uri::Scheme::new(a).is_ok()
 }
 fn v_uri_authority(a: &[u8]) -> bool {
-    tables::t_uri_authority_valid(a)
+    tables::t_uri_authority_valid_k(a, 4)
 }
 fn v_uri_path(a: &[u8]) -> bool {
     uri::Path::new(a).is_ok()
@@ -93,28 +93,28 @@ fn v_uri_fragment(a: &[u8]) -> bool {
     uri::Fragment::new(a).is_ok()
 }
 fn v_iri_authority(a: &[u8]) -> bool {
-    tables::t_iri_authority_valid(a)
+    tables::t_iri_authority_valid_k(a, 4)
 }
 fn v_iri_path(a: &[u8]) -> bool {
-    tables::t_iri_path_valid(a)
+    tables::t_iri_path_valid_k(a, 4)
 }
 fn v_iri_query(a: &[u8]) -> bool {
-    tables::t_iri_query_valid(a)
+    tables::t_iri_query_valid_k(a, 4)
 }
 fn v_iri_fragment(a: &[u8]) -> bool {
-    tables::t_iri_fragment_valid(a)
+    tables::t_iri_fragment_valid_k(a, 4)
 }
 
 // ---- UriRefBuf
-setter_body!(urirefbuf_set_scheme, UriRefBuf, t_uri_uriref_valid, mk_urirefbuf, Which::Scheme, v_scheme,
+setter_body!(urirefbuf_set_scheme, UriRefBuf, t_uri_uriref_valid_k, mk_urirefbuf, Which::Scheme, v_scheme,
     |x: &mut UriRefBuf, a: Option<&[u8]>| x.set_scheme(a.map(|a| unsafe { uri::Scheme::new_unchecked(a) })), true);
-setter_body!(urirefbuf_set_authority, UriRefBuf, t_uri_uriref_valid, mk_urirefbuf, Which::Authority, v_uri_authority,
+setter_body!(urirefbuf_set_authority, UriRefBuf, t_uri_uriref_valid_k, mk_urirefbuf, Which::Authority, v_uri_authority,
     |x: &mut UriRefBuf, a: Option<&[u8]>| x.set_authority(a.map(|a| unsafe { uri::Authority::new_unchecked(a) })), true);
-setter_body!(urirefbuf_set_path, UriRefBuf, t_uri_uriref_valid, mk_urirefbuf, Which::Path, v_uri_path,
+setter_body!(urirefbuf_set_path, UriRefBuf, t_uri_uriref_valid_k, mk_urirefbuf, Which::Path, v_uri_path,
     |x: &mut UriRefBuf, a: Option<&[u8]>| x.set_path(unsafe { uri::Path::new_unchecked(a.unwrap()) }), false);
-setter_body!(urirefbuf_set_query, UriRefBuf, t_uri_uriref_valid, mk_urirefbuf, Which::Query, v_uri_query,
+setter_body!(urirefbuf_set_query, UriRefBuf, t_uri_uriref_valid_k, mk_urirefbuf, Which::Query, v_uri_query,
     |x: &mut UriRefBuf, a: Option<&[u8]>| x.set_query(a.map(|a| unsafe { uri::Query::new_unchecked(a) })), true);
-setter_body!(urirefbuf_set_fragment, UriRefBuf, t_uri_uriref_valid, mk_urirefbuf, Which::Fragment, v_uri_fragment,
+setter_body!(urirefbuf_set_fragment, UriRefBuf, t_uri_uriref_valid_k, mk_urirefbuf, Which::Fragment, v_uri_fragment,
     |x: &mut UriRefBuf, a: Option<&[u8]>| x.set_fragment(a.map(|a| unsafe { uri::Fragment::new_unchecked(a) })), true);
 
 macro_rules! h {
@@ -125,7 +125,15 @@ macro_rules! h {
     };
 }
 
-// @h prop=C05,C04 tier=quick kind=check timeout=2400 bound="UriRefBuf text <= 6 bytes, scheme argument <= 2 bytes or removal" encodes="RiRefBufImpl::set_scheme;parse::find_scheme;PathImpl::looks_like_scheme;utils::{replace,allocate_range}"
+// @h prop=C05,C04:thorough tier=quick kind=check timeout=2400 bound="UriRefBuf text <= 5 bytes, scheme argument <= 2 bytes or removal" encodes="RiRefBufImpl::set_scheme;parse::find_scheme;PathImpl::looks_like_scheme;utils::{replace,allocate_range}"
+#[cfg_attr(kani, kani::proof)]
+#[cfg_attr(kani, kani::unwind(12))]
+#[cfg_attr(kani, kani::stub(std::vec::Vec::resize, crate::stubs::vec_resize))]
+pub fn c05_urirefbuf_set_scheme_n5() {
+    urirefbuf_set_scheme::<5, 2>()
+}
+
+// @h prop=C05,C04 tier=thorough kind=check timeout=2400 bound="UriRefBuf text <= 6 bytes, scheme argument <= 2 bytes or removal" encodes="RiRefBufImpl::set_scheme;parse::find_scheme;PathImpl::looks_like_scheme;utils::{replace,allocate_range}"
 #[cfg_attr(kani, kani::proof)]
 #[cfg_attr(kani, kani::unwind(13))]
 #[cfg_attr(kani, kani::stub(std::vec::Vec::resize, crate::stubs::vec_resize))]
@@ -133,7 +141,15 @@ pub fn c05_urirefbuf_set_scheme_n6() {
     urirefbuf_set_scheme::<6, 2>()
 }
 
-// @h prop=C05,C04 tier=quick kind=check timeout=2400 bound="UriRefBuf text <= 6 bytes, authority argument <= 2 bytes or removal" encodes="RiRefBufImpl::set_authority;parse::find_authority;utils::{replace,allocate_range}"
+// @h prop=C05,C04 tier=quick kind=check timeout=2400 bound="UriRefBuf text <= 5 bytes, authority argument <= 2 bytes or removal" encodes="RiRefBufImpl::set_authority;parse::find_authority;utils::{replace,allocate_range}"
+#[cfg_attr(kani, kani::proof)]
+#[cfg_attr(kani, kani::unwind(12))]
+#[cfg_attr(kani, kani::stub(std::vec::Vec::resize, crate::stubs::vec_resize))]
+pub fn c05_urirefbuf_set_authority_n5() {
+    urirefbuf_set_authority::<5, 2>()
+}
+
+// @h prop=C05,C04 tier=thorough kind=check timeout=2400 bound="UriRefBuf text <= 6 bytes, authority argument <= 2 bytes or removal" encodes="RiRefBufImpl::set_authority;parse::find_authority;utils::{replace,allocate_range}"
 #[cfg_attr(kani, kani::proof)]
 #[cfg_attr(kani, kani::unwind(13))]
 #[cfg_attr(kani, kani::stub(std::vec::Vec::resize, crate::stubs::vec_resize))]
@@ -141,7 +157,15 @@ pub fn c05_urirefbuf_set_authority_n6() {
     urirefbuf_set_authority::<6, 2>()
 }
 
-// @h prop=C05,C04 tier=quick kind=check timeout=2400 bound="UriRefBuf text <= 6 bytes, path argument <= 3 bytes" encodes="RiRefBufImpl::set_path;parse::find_path;RiRefImpl::authority;utils::{replace,allocate_range}"
+// @h prop=C05,C04 tier=quick kind=check timeout=2400 bound="UriRefBuf text <= 5 bytes, path argument <= 3 bytes" encodes="RiRefBufImpl::set_path;parse::find_path;RiRefImpl::authority;utils::{replace,allocate_range}"
+#[cfg_attr(kani, kani::proof)]
+#[cfg_attr(kani, kani::unwind(13))]
+#[cfg_attr(kani, kani::stub(std::vec::Vec::resize, crate::stubs::vec_resize))]
+pub fn c05_urirefbuf_set_path_n5() {
+    urirefbuf_set_path::<5, 3>()
+}
+
+// @h prop=C05,C04 tier=thorough kind=check timeout=2400 bound="UriRefBuf text <= 6 bytes, path argument <= 3 bytes" encodes="RiRefBufImpl::set_path;parse::find_path;RiRefImpl::authority;utils::{replace,allocate_range}"
 #[cfg_attr(kani, kani::proof)]
 #[cfg_attr(kani, kani::unwind(14))]
 #[cfg_attr(kani, kani::stub(std::vec::Vec::resize, crate::stubs::vec_resize))]
@@ -149,7 +173,15 @@ pub fn c05_urirefbuf_set_path_n6() {
     urirefbuf_set_path::<6, 3>()
 }
 
-// @h prop=C05,C04 tier=quick kind=check timeout=2400 bound="UriRefBuf text <= 6 bytes, query argument <= 2 bytes or removal" encodes="RiRefBufImpl::set_query;parse::find_query;utils::{replace,allocate_range}"
+// @h prop=C05,C04:thorough tier=quick kind=check timeout=2400 bound="UriRefBuf text <= 5 bytes, query argument <= 2 bytes or removal" encodes="RiRefBufImpl::set_query;parse::find_query;utils::{replace,allocate_range}"
+#[cfg_attr(kani, kani::proof)]
+#[cfg_attr(kani, kani::unwind(12))]
+#[cfg_attr(kani, kani::stub(std::vec::Vec::resize, crate::stubs::vec_resize))]
+pub fn c05_urirefbuf_set_query_n5() {
+    urirefbuf_set_query::<5, 2>()
+}
+
+// @h prop=C05,C04 tier=thorough kind=check timeout=2400 bound="UriRefBuf text <= 6 bytes, query argument <= 2 bytes or removal" encodes="RiRefBufImpl::set_query;parse::find_query;utils::{replace,allocate_range}"
 #[cfg_attr(kani, kani::proof)]
 #[cfg_attr(kani, kani::unwind(13))]
 #[cfg_attr(kani, kani::stub(std::vec::Vec::resize, crate::stubs::vec_resize))]
@@ -157,7 +189,15 @@ pub fn c05_urirefbuf_set_query_n6() {
     urirefbuf_set_query::<6, 2>()
 }
 
-// @h prop=C05,C04 tier=quick kind=check timeout=2400 bound="UriRefBuf text <= 6 bytes, fragment argument <= 2 bytes or removal" encodes="RiRefBufImpl::set_fragment;parse::find_fragment;utils::{replace,allocate_range}"
+// @h prop=C05,C04:thorough tier=quick kind=check timeout=2400 bound="UriRefBuf text <= 5 bytes, fragment argument <= 2 bytes or removal" encodes="RiRefBufImpl::set_fragment;parse::find_fragment;utils::{replace,allocate_range}"
+#[cfg_attr(kani, kani::proof)]
+#[cfg_attr(kani, kani::unwind(12))]
+#[cfg_attr(kani, kani::stub(std::vec::Vec::resize, crate::stubs::vec_resize))]
+pub fn c05_urirefbuf_set_fragment_n5() {
+    urirefbuf_set_fragment::<5, 2>()
+}
+
+// @h prop=C05,C04 tier=thorough kind=check timeout=2400 bound="UriRefBuf text <= 6 bytes, fragment argument <= 2 bytes or removal" encodes="RiRefBufImpl::set_fragment;parse::find_fragment;utils::{replace,allocate_range}"
 #[cfg_attr(kani, kani::proof)]
 #[cfg_attr(kani, kani::unwind(13))]
 #[cfg_attr(kani, kani::stub(std::vec::Vec::resize, crate::stubs::vec_resize))]
@@ -207,18 +247,26 @@ pub fn c05_urirefbuf_set_fragment_n8() {
 }
 
 // ---- IriRefBuf (own RiRefBufImpl impl over a String; multi-byte arguments)
-setter_body!(irirefbuf_set_authority, IriRefBuf, t_iri_iriref_valid, mk_irirefbuf, Which::Authority, v_iri_authority,
+setter_body!(irirefbuf_set_authority, IriRefBuf, t_iri_iriref_valid_k, mk_irirefbuf, Which::Authority, v_iri_authority,
     |x: &mut IriRefBuf, a: Option<&[u8]>| x.set_authority(a.map(|a| unsafe { iri::Authority::new_unchecked(as_str(a)) })), true);
-setter_body!(irirefbuf_set_path, IriRefBuf, t_iri_iriref_valid, mk_irirefbuf, Which::Path, v_iri_path,
+setter_body!(irirefbuf_set_path, IriRefBuf, t_iri_iriref_valid_k, mk_irirefbuf, Which::Path, v_iri_path,
     |x: &mut IriRefBuf, a: Option<&[u8]>| x.set_path(unsafe { iri::Path::new_unchecked(as_str(a.unwrap())) }), false);
-setter_body!(irirefbuf_set_query, IriRefBuf, t_iri_iriref_valid, mk_irirefbuf, Which::Query, v_iri_query,
+setter_body!(irirefbuf_set_query, IriRefBuf, t_iri_iriref_valid_k, mk_irirefbuf, Which::Query, v_iri_query,
     |x: &mut IriRefBuf, a: Option<&[u8]>| x.set_query(a.map(|a| unsafe { iri::Query::new_unchecked(as_str(a)) })), true);
-setter_body!(irirefbuf_set_scheme, IriRefBuf, t_iri_iriref_valid, mk_irirefbuf, Which::Scheme, v_scheme,
+setter_body!(irirefbuf_set_scheme, IriRefBuf, t_iri_iriref_valid_k, mk_irirefbuf, Which::Scheme, v_scheme,
     |x: &mut IriRefBuf, a: Option<&[u8]>| x.set_scheme(a.map(|a| unsafe { uri::Scheme::new_unchecked(a) })), true);
-setter_body!(irirefbuf_set_fragment, IriRefBuf, t_iri_iriref_valid, mk_irirefbuf, Which::Fragment, v_iri_fragment,
+setter_body!(irirefbuf_set_fragment, IriRefBuf, t_iri_iriref_valid_k, mk_irirefbuf, Which::Fragment, v_iri_fragment,
     |x: &mut IriRefBuf, a: Option<&[u8]>| x.set_fragment(a.map(|a| unsafe { iri::Fragment::new_unchecked(as_str(a)) })), true);
 
-// @h prop=C05,C04 tier=quick kind=check timeout=2400 bound="IriRefBuf text <= 5 bytes (UTF-8), query argument <= 3 bytes (one 3-byte scalar fits) or removal" encodes="RiRefBufImpl::set_query for IriRefBuf (String buffer)"
+// @h prop=C05,C04:thorough tier=quick kind=check timeout=2400 bound="IriRefBuf text <= 4 bytes (UTF-8), query argument <= 3 bytes (one 3-byte scalar fits) or removal" encodes="RiRefBufImpl::set_query for IriRefBuf (String buffer)"
+#[cfg_attr(kani, kani::proof)]
+#[cfg_attr(kani, kani::unwind(12))]
+#[cfg_attr(kani, kani::stub(std::vec::Vec::resize, crate::stubs::vec_resize))]
+pub fn c05_irirefbuf_set_query_n4() {
+    irirefbuf_set_query::<4, 3>()
+}
+
+// @h prop=C05,C04 tier=thorough kind=check timeout=2400 bound="IriRefBuf text <= 5 bytes (UTF-8), query argument <= 3 bytes (one 3-byte scalar fits) or removal" encodes="RiRefBufImpl::set_query for IriRefBuf (String buffer)"
 #[cfg_attr(kani, kani::proof)]
 #[cfg_attr(kani, kani::unwind(13))]
 #[cfg_attr(kani, kani::stub(std::vec::Vec::resize, crate::stubs::vec_resize))]
@@ -260,18 +308,26 @@ pub fn c05_irirefbuf_set_fragment_n6() {
 
 // ---- UriBuf / IriBuf: set_scheme takes a scheme (never removed); the other
 // setters are the same generic code through another impl of the traits.
-setter_body!(uribuf_set_scheme, UriBuf, t_uri_uri_valid, mk_uribuf, Which::Scheme, v_scheme,
+setter_body!(uribuf_set_scheme, UriBuf, t_uri_uri_valid_k, mk_uribuf, Which::Scheme, v_scheme,
     |x: &mut UriBuf, a: Option<&[u8]>| x.set_scheme(unsafe { uri::Scheme::new_unchecked(a.unwrap()) }), false);
-setter_body!(uribuf_set_authority, UriBuf, t_uri_uri_valid, mk_uribuf, Which::Authority, v_uri_authority,
+setter_body!(uribuf_set_authority, UriBuf, t_uri_uri_valid_k, mk_uribuf, Which::Authority, v_uri_authority,
     |x: &mut UriBuf, a: Option<&[u8]>| x.set_authority(a.map(|a| unsafe { uri::Authority::new_unchecked(a) })), true);
-setter_body!(uribuf_set_path, UriBuf, t_uri_uri_valid, mk_uribuf, Which::Path, v_uri_path,
+setter_body!(uribuf_set_path, UriBuf, t_uri_uri_valid_k, mk_uribuf, Which::Path, v_uri_path,
     |x: &mut UriBuf, a: Option<&[u8]>| x.set_path(unsafe { uri::Path::new_unchecked(a.unwrap()) }), false);
-setter_body!(iribuf_set_scheme, IriBuf, t_iri_iri_valid, mk_iribuf, Which::Scheme, v_scheme,
+setter_body!(iribuf_set_scheme, IriBuf, t_iri_iri_valid_k, mk_iribuf, Which::Scheme, v_scheme,
     |x: &mut IriBuf, a: Option<&[u8]>| x.set_scheme(unsafe { uri::Scheme::new_unchecked(a.unwrap()) }), false);
-setter_body!(iribuf_set_path, IriBuf, t_iri_iri_valid, mk_iribuf, Which::Path, v_iri_path,
+setter_body!(iribuf_set_path, IriBuf, t_iri_iri_valid_k, mk_iribuf, Which::Path, v_iri_path,
     |x: &mut IriBuf, a: Option<&[u8]>| x.set_path(unsafe { iri::Path::new_unchecked(as_str(a.unwrap())) }), false);
 
-// @h prop=C05,C04 tier=quick kind=check timeout=2400 bound="UriBuf text <= 6 bytes, scheme argument <= 3 bytes" encodes="RiBufImpl::set_scheme;parse::scheme"
+// @h prop=C05,C04:thorough tier=quick kind=check timeout=2400 bound="UriBuf text <= 5 bytes, scheme argument <= 2 bytes" encodes="RiBufImpl::set_scheme;parse::scheme"
+#[cfg_attr(kani, kani::proof)]
+#[cfg_attr(kani, kani::unwind(12))]
+#[cfg_attr(kani, kani::stub(std::vec::Vec::resize, crate::stubs::vec_resize))]
+pub fn c05_uribuf_set_scheme_n5() {
+    uribuf_set_scheme::<5, 2>()
+}
+
+// @h prop=C05,C04 tier=thorough kind=check timeout=2400 bound="UriBuf text <= 6 bytes, scheme argument <= 3 bytes" encodes="RiBufImpl::set_scheme;parse::scheme"
 #[cfg_attr(kani, kani::proof)]
 #[cfg_attr(kani, kani::unwind(14))]
 #[cfg_attr(kani, kani::stub(std::vec::Vec::resize, crate::stubs::vec_resize))]
@@ -309,4 +365,36 @@ pub fn c05_iribuf_set_scheme_n6() {
 #[cfg_attr(kani, kani::stub(std::vec::Vec::resize, crate::stubs::vec_resize))]
 pub fn c05_iribuf_set_path_n6() {
     iribuf_set_path::<6, 3>()
+}
+
+/// Buffers obtained without parsing: `default()` and `from_scheme` are valid
+/// values of their type (C04: "however obtained").
+fn constructors<const M: usize>() {
+    let a = Text::<M>::any();
+    let sc = a.bytes();
+    assume(uri::Scheme::new(sc).is_ok());
+    let d = UriRefBuf::default();
+    assert!(tables::t_uri_uriref_valid_k(d.as_bytes(), 1), "C04: UriRefBuf::default() is not a valid URI reference");
+    let di = IriRefBuf::default();
+    assert!(tables::t_iri_iriref_valid_k(di.as_bytes(), 1), "C04: IriRefBuf::default() is not a valid IRI reference");
+    let dp = uri::PathBuf::default();
+    assert!(tables::t_uri_path_valid_k(dp.as_bytes(), 1), "C04: PathBuf::default() is not a valid path");
+    let sb = unsafe { uri::SchemeBuf::new_unchecked(vec_of(sc)) };
+    let u = UriBuf::from_scheme(sb);
+    assert!(tables::t_uri_uri_valid_k(u.as_bytes(), M + 1), "C04: UriBuf::from_scheme is not a valid URI");
+    assert!(u.as_bytes().len() == sc.len() + 1 && bytes_eq(&u.as_bytes()[..sc.len()], sc) && u.as_bytes()[sc.len()] == b':', "C04: from_scheme is not scheme ':'");
+    let sb2 = unsafe { uri::SchemeBuf::new_unchecked(vec_of(sc)) };
+    let i = IriBuf::from_scheme(sb2);
+    assert!(tables::t_iri_iri_valid_k(i.as_bytes(), M + 1), "C04: IriBuf::from_scheme is not a valid IRI");
+    cover!(sc.len() == M, "maximal scheme");
+    forget(u);
+    forget(i);
+}
+
+// @h prop=C04 tier=quick kind=check bound="scheme <= 4 bytes" encodes="Default for UriRefBuf/IriRefBuf/PathBuf;RiBufImpl::from_scheme;UriBuf::from_scheme;IriBuf::from_scheme"
+#[cfg_attr(kani, kani::proof)]
+#[cfg_attr(kani, kani::unwind(8))]
+#[cfg_attr(kani, kani::stub(std::vec::Vec::push, crate::stubs::vec_push))]
+pub fn c04_constructors_m4() {
+    constructors::<4>()
 }
